@@ -174,7 +174,12 @@ func (r *Run) vfCall(fr *frame, fn *ssa.Function, args []value) value {
 		}
 		return args[0]
 	case "vfFsCrashAt":
-		r.fsCrashAt = int(asInt64(args[0]))
+		// the k-th file-system operation from now on does not complete (k < 0: none)
+		if k := int(asInt64(args[0])); k >= 0 {
+			r.fsCrashAt = r.fsGet().ops + k
+		} else {
+			r.fsCrashAt = -1
+		}
 		return nil
 	}
 	// any other vf* function is a plain harness helper with a body
